@@ -329,7 +329,24 @@ func (w *World) ResizeOp() {
 		name = "other"
 	}
 	s := w.rec(Step{K: "resize", Len: size, Note: name})
-	err := w.C.Resize(name, strconv.FormatInt(size, 10))
+	// the size is a string in the API: plain bytes or with a (binary) unit suffix
+	str := strconv.FormatInt(size, 10)
+	if size%1024 == 0 {
+		switch r.Intn(4) {
+		case 1:
+			str = fmt.Sprintf("%dk", size/1024)
+		case 2:
+			str = fmt.Sprintf("%dKiB", size/1024)
+		case 3:
+			if size%(1<<20) == 0 {
+				str = fmt.Sprintf("%dm", size>>20)
+			} else {
+				str = fmt.Sprintf("%dkb", size/1024)
+			}
+		}
+	}
+	s.Note = name + " size=" + str
+	err := w.C.Resize(name, str)
 	w.Res.Count("controller_resizes", 1)
 	post := w.C.VerifState()
 	if kind != 0 {
